@@ -137,3 +137,306 @@ Proof.
   apply andb_prop in B. destruct B as [B1 B2].
   split; [apply legacy_okb_sound, B1|apply nodupb_sound, B2].
 Qed.
+
+(** ===== Deletion side of the legacy store (LegacyStore.v / LegacyStoreFacts.v) ===== *)
+(** C16, deletion side: the legacy node store (nodes by hash, orphan records, root records),
+    the library that wrote it (iavl v0.20.0: SaveVersion, DeleteVersion) and the code of the new
+    library that deletes from it (deleteLegacyNodes / DeleteVersionsFrom, deleteLegacyVersions /
+    deleteVersionsTo).  Model: LegacyStore.v; proofs: LegacyStoreFacts.v.
+
+    Vocabulary (LegacyStoreFacts.v):
+    - [hash_inj_on H U]: two nodes (subtrees) of the trees of [U] with the same hash are stored
+      as the same legacy node (no collision of [H] on the trees of [U]);
+    - [legacy_hist_ok H U ops]: every tree committed by [ops] is a tree of [U], and each of its
+      nodes carries the version being committed or is a node of the latest version (what a
+      commit of the tree algebra M1 produces); deletions are unconstrained, a refused one
+      (version <= 0, latest, or absent) changes nothing;
+    - [tree_storable H t]: the legacy codec stores and reads back every node of [t]
+      ([legacy_ok]), the hashes of [t] are pairwise distinct, the root hash is not [[]];
+    - [on_top_of U L tL tL1]: [tL1] is a tree of [U] whose nodes of version <= L are nodes
+      of [tL];
+    - [legacy_part_kept H db' L tL1]: every node of [tL1] of version <= L is in the node table
+      of [db'] under its hash, with the bytes the legacy library wrote.
+    FINDINGS: the seeded variants C16 (sweep guard [<=]), C16b (clean-up guard [>]) and C16e
+    (children test in deleteLegacyNodes) are refuted on concrete histories; exactness of the
+    final clean-up is REFUTED for the transcribed code (a storage leak, nothing is lost). *)
+From IAVL Require Import Bytes Varint Sha256 Tree VMap TreeFacts MTree MTreeFacts HashFacts
+  Codec CodecFacts Legacy LegacyFacts LegacyStore LegacyStoreFacts.
+Local Open Scope Z_scope.
+
+(** 1. After any history of the legacy library every retained version has its root record and
+    all its nodes, and loads back as the M1 tree. *)
+Theorem C16b_legacy_writer_closed :
+  forall (H : bytes -> bytes) (U : list node),
+    hash_inj_on H U ->
+    forall ops : list lop,
+      legacy_hist_ok H U ops ->
+      let db := fst (legacy_history H ops) in
+      let f := snd (legacy_history H ops) in
+      (forall v t, In (v, t) f -> lookup v (lroots db) = Some (legacy_root_value H t)) /\
+      (forall v t n, In (v, Some t) f -> subtree n t ->
+                     lfind (nhash H n) (lnodes db) = Some (legacy_raw H n)) /\
+      ((forall v t, In (v, Some t) f -> tree_storable H t) -> legacy_closedb H db f = true).
+Proof. exact legacy_writer_closed. Qed.
+Print Assumptions C16b_legacy_writer_closed.
+
+(** 2. The orphan records. *)
+Theorem C16b_orphan_records_sound :
+  forall (H : bytes -> bytes) (U : list node),
+    hash_inj_on H U ->
+    forall ops : list lop,
+      legacy_hist_ok H U ops ->
+      let db := fst (legacy_history H ops) in
+      let f := snd (legacy_history H ops) in
+      forall (to from : Z) (h : bytes),
+        In ((to, from), h) (lorph db) ->
+        from <= to /\
+        (exists n, sub_of U n /\ nhash H n = h /\ ver (nmeta n) = from) /\
+        (forall v t, In (v, t) f -> from <= v <= to -> In h (otree_hashes H t)) /\
+        (forall v t, In (v, t) f -> to < v -> ~ In h (otree_hashes H t)) /\
+        (exists v t, In (v, t) f /\ to < v).
+Proof. exact orphan_records_sound. Qed.
+Print Assumptions C16b_orphan_records_sound.
+
+(** 3. The legacy part of DeleteVersionsFrom(from). *)
+Theorem C16b_rollback_legacy_safe :
+  forall (H : bytes -> bytes) (U : list node),
+    hash_inj_on H U ->
+    forall (ops : list lop) (fuel : nat) (from : Z),
+      legacy_hist_ok H U ops -> 1 <= from ->
+      let db := fst (legacy_history H ops) in
+      let f := snd (legacy_history H ops) in
+      (forall v t, In (v, Some t) f -> (ldepth t <= fuel)%nat) ->
+      let f' := filter (fun p => fst p <? from) f in
+      exists db', rollback_legacy fuel db from = Some db' /\
+        (forall v t, In (v, t) f' -> lookup v (lroots db') = Some (legacy_root_value H t)) /\
+        (forall v t n, In (v, Some t) f' -> subtree n t ->
+                       lfind (nhash H n) (lnodes db') = Some (legacy_raw H n)) /\
+        ((forall v t, In (v, Some t) f' -> tree_storable H t) -> legacy_closedb H db' f' = true) /\
+        (forall v, from <= v -> lookup v (lroots db') = None) /\
+        (forall h n, lfind h (lnodes db) = Some n -> ln_version n < from ->
+                     lfind h (lnodes db') = Some n) /\
+        (forall h, lfind h (lnodes db) = None -> lfind h (lnodes db') = None) /\
+        lorph db' = lorph db.
+Proof. exact rollback_legacy_safe. Qed.
+Print Assumptions C16b_rollback_legacy_safe.
+
+(** 4. deleteLegacyVersions(L), right after a legacy history ... *)
+Theorem C16b_delete_legacy_versions_safe :
+  forall (H : bytes -> bytes) (U : list node),
+    hash_inj_on H U ->
+    forall (ops : list lop) (L : Z) (tL tL1 : option node),
+      legacy_hist_ok H U ops ->
+      let db := fst (legacy_history H ops) in
+      let f := snd (legacy_history H ops) in
+      In (L, tL) f -> on_top_of U L tL tL1 ->
+      let db' := delete_legacy_versions H db L tL tL1 in
+      legacy_part_kept H db' L tL1 /\
+      (forall h, lfind h (lnodes db) = None -> lfind h (lnodes db') = None) /\
+      lroots db' = [] /\ lorph db' = [].
+Proof. exact delete_legacy_versions_safe. Qed.
+Print Assumptions C16b_delete_legacy_versions_safe.
+
+(** ... and after a rollback into the legacy versions. *)
+Theorem C16b_delete_legacy_versions_safe_after_rollback :
+  forall (H : bytes -> bytes) (U : list node),
+    hash_inj_on H U ->
+    forall (ops : list lop) (fuel : nat) (from : Z) (dbr : ldb) (L : Z) (tL tL1 : option node),
+      legacy_hist_ok H U ops -> 1 <= from ->
+      let db := fst (legacy_history H ops) in
+      let f := snd (legacy_history H ops) in
+      (forall v t, In (v, Some t) f -> (ldepth t <= fuel)%nat) ->
+      rollback_legacy fuel db from = Some dbr ->
+      In (L, tL) (filter (fun p => fst p <? from) f) -> on_top_of U L tL tL1 ->
+      let db' := delete_legacy_versions H dbr L tL tL1 in
+      legacy_part_kept H db' L tL1 /\
+      (forall h, lfind h (lnodes dbr) = None -> lfind h (lnodes db') = None) /\
+      lroots db' = [] /\ lorph db' = [].
+Proof. exact delete_legacy_versions_safe_after_rollback. Qed.
+Print Assumptions C16b_delete_legacy_versions_safe_after_rollback.
+
+(** Seeded variant C16e (children test in deleteLegacyNodes): REFUTED.
+    History: v1 = {a, b}, v2 = v1 committed without changes, v3 adds c; DeleteVersionsFrom(2). *)
+Theorem C16b_rollback_children_test_refuted :
+  exists (ops : list lop) (from : Z),
+    let db := fst (legacy_history sha256 ops) in
+    let f := snd (legacy_history sha256 ops) in
+    let f' := filter (fun p => fst p <? from) f in
+    legacy_hist_okb sha256 (trees_of_ops ops) ops = true /\
+    hash_inj_listb sha256 (trees_of_ops ops) = true /\
+    legacy_closedb sha256 db f = true /\
+    match rollback_legacy_children_test (legacy_fuel db) db from,
+          rollback_legacy (legacy_fuel db) db from with
+    | Some bad, Some good =>
+        legacy_closedb sha256 bad f' = false /\ legacy_closedb sha256 good f' = true /\
+        existsb (fun p => (ln_version (snd p) <? from) &&
+                          negb (hmem (fst p) (map fst (lnodes bad)))) (lnodes db) = true
+    | _, _ => False
+    end.
+Proof. exact rollback_children_test_refuted. Qed.
+Print Assumptions C16b_rollback_children_test_refuted.
+
+(** Seeded variant C16 (sweep guard [toVersion <= L]): REFUTED.
+    History: three legacy versions, version 3 rewrites key 2; DeleteVersionsFrom(3); version 3'
+    (new format) adds key 5; deleteLegacyVersions(2). *)
+Theorem C16b_sweep_guard_le_refuted :
+  exists (ops : list lop) (from L : Z) (tL1 : option node),
+    let db := fst (legacy_history sha256 ops) in
+    let f := snd (legacy_history sha256 ops) in
+    let tL := latest_tree f L in
+    let U := with_tree (trees_of_ops ops) tL1 in
+    legacy_hist_okb sha256 U ops = true /\ hash_inj_listb sha256 U = true /\
+    on_top_ofb U L tL tL1 = true /\
+    match rollback_legacy (legacy_fuel db) db from with
+    | Some dbr =>
+        legacy_latest dbr = L /\
+        legacy_lost sha256 (delete_legacy_versions_le sha256 dbr L tL tL1) tL tL1 <> [] /\
+        legacy_lost sha256 (delete_legacy_versions sha256 dbr L tL tL1) tL tL1 = []
+    | None => False
+    end.
+Proof. exact sweep_guard_le_refuted. Qed.
+Print Assumptions C16b_sweep_guard_le_refuted.
+
+(** Seeded variant C16b (clean-up guard [legacyLatestVersion > first]): REFUTED. *)
+Theorem C16b_prune_legacy_gt_refuted :
+  let db := fst (legacy_history sha256 (commits_of (firstn 1 refE_forest))) in
+  let tL := latest_tree refE_forest 1 in
+  let tL1 := latest_tree refE_forest 2 in
+  legacy_latest db = 1 /\
+  match prune_legacy sha256 db 1 1 2 tL tL1, prune_legacy_gt sha256 db 1 1 2 tL tL1 with
+  | Some good, Some bad => lroots good = [] /\ lroots bad <> [] /\ legacy_lost sha256 good tL tL1 = []
+  | _, _ => False
+  end.
+Proof. exact prune_legacy_gt_refuted. Qed.
+Print Assumptions C16b_prune_legacy_gt_refuted.
+
+(** 5. Exactness of the final clean-up: REFUTED for the transcribed code (a leak).
+    History: legacy versions 1, 2, 3, the legacy library deletes version 2 (a node created by
+    version 2 lives on in version 3); DeleteVersionsFrom(2); version 2' in the new format;
+    deleteLegacyVersions(1).  The node of version 2 is never deleted. *)
+Theorem C16b_delete_legacy_versions_exact_refuted :
+  exists (ops : list lop) (from L : Z) (tL1 : option node),
+    let db := fst (legacy_history sha256 ops) in
+    let f := snd (legacy_history sha256 ops) in
+    let f' := filter (fun p => fst p <? from) f in
+    let tL := latest_tree f L in
+    let U := with_tree (trees_of_ops ops) tL1 in
+    legacy_hist_okb sha256 U ops = true /\ hash_inj_listb sha256 U = true /\
+    on_top_ofb U L tL tL1 = true /\
+    legacy_garbage sha256 db f = [] /\
+    match rollback_legacy (legacy_fuel db) db from with
+    | Some dbr =>
+        legacy_latest dbr = L /\ legacy_closedb sha256 dbr f' = true /\
+        legacy_garbage sha256 dbr f' <> [] /\
+        let db' := delete_legacy_versions sha256 dbr L tL tL1 in
+        legacy_unreachable sha256 db' tL1 <> [] /\ legacy_lost sha256 db' tL tL1 = []
+    | None => False
+    end.
+Proof. exact delete_legacy_versions_exact_refuted. Qed.
+Print Assumptions C16b_delete_legacy_versions_exact_refuted.
+
+(** *** Non-vacuity (SHA-256).  M1 history with five versions: v1 = {1,2,3,4}; v2 adds 5 and
+    removes 1; v3 = v2 committed without changes; v4 rewrites 2; v5 adds 6 and removes 3.
+    The legacy library commits 1, 2, 3, deletes version 2, commits 4, 5, then is asked to delete
+    version 9 (absent) and version 5 (latest): both refused.  The new library rolls back to
+    version 4 (DeleteVersionsFrom(5)), commits 5' (adds 7) in the new format and prunes the
+    legacy versions (deleteLegacyVersions(4)). *)
+Definition C16b_m1 : list op :=
+  [OSet [1%N] [10%N]; OSet [2%N] [20%N]; OSet [3%N] [30%N]; OSet [4%N] [40%N]; OSave;
+   OSet [5%N] [50%N]; ORemove [1%N]; OSave; OSave; OSet [2%N] [21%N]; OSave;
+   OSet [6%N] [60%N]; ORemove [3%N]; OSave].
+Definition C16b_forest : lforest := m1_forest C16b_m1.
+Definition C16b_ops : list lop :=
+  commits_of (firstn 3 C16b_forest) ++ [LDelete 2] ++ commits_of (skipn 3 C16b_forest) ++
+  [LDelete 9; LDelete 5].
+Definition C16b_new : option node :=
+  latest_tree (m1_forest (C16b_m1 ++ [OLvfo 4; OSet [7%N] [70%N]; OSave])) 5.
+Definition C16b_U : list node := with_tree (trees_of_ops C16b_ops) C16b_new.
+
+Definition C16b_expected :=
+  ([true; true; true; true; true; true; false; false], [1; 3; 4; 5], 18%nat, 11%nat, [1; 3; 4; 5],
+   true, @nil bytes, 5,
+   Some ([1; 3; 4], 14%nat, 11%nat, true, @nil bytes, 4, 5%nat, @nil orec, @nil (Z * bytes),
+         @nil bytes, @nil bytes, -1)).
+
+Example C16b_example :
+  let st := legacy_history_log sha256 (empty_ldb, []) C16b_ops in
+  let db := fst (fst st) in
+  let f := snd (fst st) in
+  let f4 := filter (fun p => fst p <? 5) f in
+  let tL := latest_tree f 4 in
+  (snd st, map fst f, length (lnodes db), length (lorph db), map fst (lroots db),
+   legacy_closedb sha256 db f, legacy_garbage sha256 db f, legacy_latest db,
+   match rollback_legacy (legacy_fuel db) db 5 with
+   | Some dbr =>
+       let db' := delete_legacy_versions sha256 dbr 4 tL C16b_new in
+       Some (map fst (lroots dbr), length (lnodes dbr), length (lorph dbr),
+             legacy_closedb sha256 dbr f4, legacy_garbage sha256 dbr f4, legacy_latest dbr,
+             length (lnodes db'), lorph db', lroots db',
+             legacy_lost sha256 db' tL C16b_new, legacy_unreachable sha256 db' C16b_new,
+             legacy_latest db')
+   | None => None
+   end) =
+  C16b_expected.
+Proof. vm_cast_no_check (eq_refl C16b_expected). Qed.
+
+(** the hypotheses of the theorems above hold for that history *)
+Local Notation C16b_st := (legacy_history sha256 C16b_ops).
+
+Example C16b_example_inj : hash_inj_on sha256 C16b_U.
+Proof. apply hash_inj_listb_sound. vm_cast_no_check (eq_refl true). Qed.
+
+Example C16b_example_hist : legacy_hist_ok sha256 C16b_U C16b_ops.
+Proof. apply legacy_hist_okb_sound. vm_cast_no_check (eq_refl true). Qed.
+
+Example C16b_example_trees :
+  forall v t, In (v, Some t) (snd C16b_st) ->
+              tree_storable sha256 t /\ (ldepth t <= legacy_fuel (fst C16b_st))%nat.
+Proof.
+  intros v t I.
+  assert (B : tree_storableb sha256 t && ldepthb_le (legacy_fuel (fst C16b_st)) t = true).
+  { refine (forest_allb_sound
+              (fun t => tree_storableb sha256 t && ldepthb_le (legacy_fuel (fst C16b_st)) t)
+              _ _ v t I).
+    vm_cast_no_check (eq_refl true). }
+  apply andb_prop in B. destruct B as [B1 B2].
+  split; [apply tree_storableb_sound, B1|apply ldepthb_le_sound, B2].
+Qed.
+
+Example C16b_example_version :
+  In (4, latest_tree (snd C16b_st) 4) (filter (fun p => fst p <? 5) (snd C16b_st)).
+Proof.
+  apply latest_tree_In; [lia|].
+  assert (B : match lookup 4 (snd C16b_st) with Some _ => true | None => false end = true)
+    by (vm_cast_no_check (eq_refl true)).
+  destruct (lookup 4 (snd C16b_st)) as [t|]; [eauto|discriminate B].
+Qed.
+
+Example C16b_example_on_top : on_top_of C16b_U 4 (latest_tree (snd C16b_st) 4) C16b_new.
+Proof. apply on_top_ofb_sound. vm_cast_no_check (eq_refl true). Qed.
+
+(** the theorems instantiated on it: the rollback succeeds, and the final clean-up keeps the
+    legacy part of version 5' *)
+Example C16b_example_instance :
+  exists dbr,
+    rollback_legacy (legacy_fuel (fst C16b_st)) (fst C16b_st) 5 = Some dbr /\
+    legacy_closedb sha256 dbr (filter (fun p => fst p <? 5) (snd C16b_st)) = true /\
+    legacy_part_kept sha256
+      (delete_legacy_versions sha256 dbr 4 (latest_tree (snd C16b_st) 4) C16b_new) 4 C16b_new /\
+    lroots (delete_legacy_versions sha256 dbr 4 (latest_tree (snd C16b_st) 4) C16b_new) = [] /\
+    lorph (delete_legacy_versions sha256 dbr 4 (latest_tree (snd C16b_st) 4) C16b_new) = [].
+Proof.
+  assert (P : 1 <= 5) by lia.
+  pose proof (fun v t I => proj2 (C16b_example_trees v t I)) as Fuel.
+  destruct (C16b_rollback_legacy_safe sha256 C16b_U C16b_example_inj C16b_ops
+              (legacy_fuel (fst C16b_st)) 5 C16b_example_hist P Fuel)
+    as (dbr & E & _ & _ & Cl & _).
+  exists dbr. split; [exact E|]. split.
+  - exact (Cl (forest_filter_sub (fun _ t => tree_storable sha256 t) _ _
+                 (fun v t I => proj1 (C16b_example_trees v t I)))).
+  - pose proof (C16b_delete_legacy_versions_safe_after_rollback sha256 C16b_U C16b_example_inj
+                C16b_ops (legacy_fuel (fst C16b_st)) 5 dbr 4 (latest_tree (snd C16b_st) 4) C16b_new
+                C16b_example_hist P Fuel E C16b_example_version C16b_example_on_top) as K.
+    cbv zeta in K.
+    exact (conj (proj1 K) (proj2 (proj2 K))).
+Qed.
